@@ -3,6 +3,7 @@ package props
 import (
 	"bytes"
 	"fmt"
+	"github.com/tinylib/msgp/msgp"
 	"time"
 
 	"github.com/IBM/fluent-forward-go/fluent/protocol"
@@ -139,6 +140,80 @@ func C19(c *core.Ctx) {
 			}
 		}
 		c.Hist("foreign binary time layouts rejected")
+	}
+	// the same rule through every decoder that meets a timestamp extension (entries, MessageExt, Forward entries;
+	// byte-slice and stream paths) and every framing msgpack has for an extension of that length
+	// (fixext, ext8, ext16, ext32): a type-0 extension whose payload is not 8 bytes long is not an EventTime
+	for _, ln := range []int{0, 1, 2, 4, 7, 8, 9, 12, 15, 16, 17, 255, 300} {
+		payload := make([]byte, ln)
+		r.Read(payload)
+		var framings [][]byte
+		switch ln {
+		case 1:
+			framings = append(framings, []byte{0xd4, 0})
+		case 2:
+			framings = append(framings, []byte{0xd5, 0})
+		case 4:
+			framings = append(framings, []byte{0xd6, 0})
+		case 8:
+			framings = append(framings, []byte{0xd7, 0})
+		case 16:
+			framings = append(framings, []byte{0xd8, 0})
+		}
+		if ln < 256 {
+			framings = append(framings, []byte{0xc7, byte(ln), 0})
+		}
+		framings = append(framings, []byte{0xc8, byte(ln >> 8), byte(ln), 0}, []byte{0xc9, 0, 0, byte(ln >> 8), byte(ln), 0})
+		for _, fr := range framings {
+			ts := append(append([]byte{}, fr...), payload...)
+			ent := append(append([]byte{0x92}, ts...), 0x80)
+			carriers := []struct {
+				name string
+				b    []byte
+				slc  func(b []byte) error
+				str  func(b []byte) error
+			}{
+				{"EntryExt", ent,
+					func(b []byte) error { var e protocol.EntryExt; _, err := e.UnmarshalMsg(b); return err },
+					func(b []byte) error { var e protocol.EntryExt; return msgp.Decode(bytes.NewReader(b), &e) }},
+				{"MessageExt", append(append([]byte{0x93, 0xa1, 't'}, ts...), 0x80),
+					func(b []byte) error { var m protocol.MessageExt; _, err := m.UnmarshalMsg(b); return err },
+					func(b []byte) error { var m protocol.MessageExt; return msgp.Decode(bytes.NewReader(b), &m) }},
+				{"MessageExt with options", append(append([]byte{0x94, 0xa1, 't'}, ts...), 0x80, 0x80),
+					func(b []byte) error { var m protocol.MessageExt; _, err := m.UnmarshalMsg(b); return err },
+					func(b []byte) error { var m protocol.MessageExt; return msgp.Decode(bytes.NewReader(b), &m) }},
+				{"ForwardMessage", append([]byte{0x92, 0xa1, 't', 0x91}, ent...),
+					func(b []byte) error { var m protocol.ForwardMessage; _, err := m.UnmarshalMsg(b); return err },
+					func(b []byte) error { var m protocol.ForwardMessage; return msgp.Decode(bytes.NewReader(b), &m) }},
+				{"EntryList.UnmarshalPacked", ent,
+					func(b []byte) error { var l protocol.EntryList; _, err := l.UnmarshalPacked(b); return err }, nil},
+			}
+			for _, mb := range []struct {
+				mode string
+				b    []byte
+			}{{"message_ext", carriers[2].b}, {"forward", carriers[3].b}} {
+				mode, b := mb.mode, mb.b
+				for _, path := range paths {
+					obs, _, _ := decodeMsgObs(mode, path, newReceiver(mode), b)
+					c.Corr("c19-carrier", "U_"+mode, []string{path, hx(b)}, obs)
+				}
+			}
+			for _, ca := range carriers {
+				for k, f := range []func([]byte) error{ca.slc, ca.str} {
+					if f == nil {
+						continue
+					}
+					var err error
+					p := safely(func() { err = f(ca.b) })
+					c.Eval()
+					if p == nil && (err == nil) != (ln == 8) {
+						c.Violation("judge-go", "c19-length", fmt.Sprintf("%s (%s path): a type-0 timestamp extension of %d bytes (framing 0x%02x): %v", ca.name, []string{"byte-slice", "stream"}[k], ln, fr[0], err),
+							map[string]string{"bytes": hx(ca.b)})
+					}
+				}
+			}
+		}
+		c.Hist("timestamp extensions of other lengths rejected by every decoder")
 	}
 	// lengths other than 8 are rejected; any 8 bytes are accepted; re-encoding reproduces
 	// payloads with a nanosecond field below 10^9
